@@ -530,7 +530,11 @@ func (s *Server) handleFileTransfer(ctx context.Context, rwc io.ReadWriter) erro
 
 	// The first 16 bytes contain the file transfer.
 	var t transfer
-	if _, err := io.CopyN(&t, rwc, 16); err != nil {
+	transferBuf := make([]byte, 16)
+	if _, err := io.ReadFull(rwc, transferBuf); err != nil {
+		return fmt.Errorf("error reading file transfer: %w", err)
+	}
+	if _, err := t.Write(transferBuf); err != nil {
 		return fmt.Errorf("error reading file transfer: %w", err)
 	}
 
